@@ -426,6 +426,9 @@ type boomProbe struct {
 	C  int
 }
 
+// the object a panicking call was validating is validated again later, as an ordinary judged call
+var lastBoom *boomProbe
+
 func panicAside(r *rand.Rand) {
 	defer func() { _ = recover() }()
 	boom := func(errBuf *strings.Builder, validName, objName, fieldName string, tv reflect.Value) { panic("user function") }
@@ -433,7 +436,11 @@ func panicAside(r *rand.Rand) {
 		vs := valid.NewVStruct()
 		vs.SetRule(valid.RM{"A": "to=1~2", "E1": "either=9", "E2": "either=9", "B": "lboom", "C": "ge=5"}) // a group is pending when B's function panics
 		vs.SetValidFn("lboom", boom)
-		_ = vs.Valid(&boomProbe{A: "abcdef", B: "x", C: 1})
+		p := &boomProbe{A: "abcdef", B: "x", C: 1}
+		if sharedOn {
+			lastBoom = p
+		}
+		_ = vs.Valid(p)
 	} else {
 		_ = valid.NewVVar().SetRules("to=1~2", "lboom").SetValidFn("lboom", boom).Valid("abcdef")
 	}
@@ -489,6 +496,10 @@ func init() {
 			}
 			if chance(r, 0.03) {
 				panicAside(r)
+			}
+			if lastBoom != nil && chance(r, 0.02) {
+				// the very object whose validation was cut short by the caller's panic, validated again by its tags-free rule set
+				return structCall{src: lastBoom, outer: valid.RM{"A": "to=1~2", "E1": "either=9", "E2": "either=9", "C": "ge=5"}}.toCase([]string{"top:after-panic"}, "")
 			}
 			switch r.IntN(9) {
 			case 8:
